@@ -142,6 +142,8 @@ static struct root roots[] = {
     { "Pt", C4_Pt_parse_json_as_root, C4_Pt_verify_as_root_with_identifier, C4_Pt_verify_as_root_with_identifier_and_size },
     { "Rec", C4_Rec_parse_json_as_root, C4_Rec_verify_as_root_with_identifier, C4_Rec_verify_as_root_with_identifier_and_size },
     { "Node", C4_Node_parse_json_as_root, C4_Node_verify_as_root_with_identifier, C4_Node_verify_as_root_with_identifier_and_size },
+    { "Req", C4_Req_parse_json_as_root, C4_Req_verify_as_root_with_identifier, C4_Req_verify_as_root_with_identifier_and_size },
+    { "Nums", C4_Nums_parse_json_as_root, C4_Nums_verify_as_root_with_identifier, C4_Nums_verify_as_root_with_identifier_and_size },
     { "Fix", C4_Fix_parse_json_as_root, C4_Fix_verify_as_root_with_identifier, C4_Fix_verify_as_root_with_identifier_and_size },
     { 0, 0, 0, 0 }
 };
